@@ -48,8 +48,7 @@ class Ctx:
             except Exception:
                 pass
             P = Prover(F, self.eff(cfg), tables=tb)
-            for fn in F.fns():
-                P.check_fn(fn)
+            P.check_all(F.fns())
             self._lenproof[cfg] = P
         return self._lenproof[cfg]
 
